@@ -832,12 +832,21 @@ class spawn(SpawnBase):
 
         # The data is copied as bytes, but in unicode mode the log files get
         # text, as everywhere else: child output goes through the instance's
-        # decoder, keystrokes through one of their own.
+        # decoder, keystrokes through one of their own. Nothing is decoded
+        # when no log file would receive it, so that bytes the encoding cannot
+        # represent are still copied.
         if self.encoding is None:
             decode_sent = lambda b: b
         else:
             decode_sent = codecs.getincrementaldecoder(self.encoding)(
                 self.codec_errors).decode
+        log_read = lambda b: None
+        log_send = lambda b: None
+        if self.logfile is not None or self.logfile_read is not None:
+            log_read = lambda b: self._log(
+                self._decoder.decode(b, final=False), 'read')
+        if self.logfile is not None or self.logfile_send is not None:
+            log_send = lambda b: self._log(decode_sent(b), 'send')
 
         while self.isalive():
             if self.use_poll:
@@ -859,7 +868,7 @@ class spawn(SpawnBase):
                     break
                 if output_filter:
                     data = output_filter(data)
-                self._log(self._decoder.decode(data, final=False), 'read')
+                log_read(data)
                 os.write(self.STDOUT_FILENO, data)
             if self.STDIN_FILENO in r:
                 data = self.__interact_read(self.STDIN_FILENO)
@@ -871,10 +880,10 @@ class spawn(SpawnBase):
                 if i != -1:
                     data = data[:i]
                     if data:
-                        self._log(decode_sent(data), 'send')
+                        log_send(data)
                     self.__interact_writen(self.child_fd, data)
                     break
-                self._log(decode_sent(data), 'send')
+                log_send(data)
                 self.__interact_writen(self.child_fd, data)
 
 
